@@ -216,6 +216,12 @@ func (s *server) HandleRemoteQueries(r *rpc.RegisterQueryHandler, stream grpc.Se
 			}
 
 			if first {
+				if m.Error != "" {
+					// The follower failed before it got to send its fields, this is
+					// its only message
+					finalErr = errors.New(m.Error)
+					break
+				}
 				// First message contains only fields information
 				onFields(m.Fields)
 				first = false
